@@ -14,7 +14,7 @@ from concurrent.futures import ThreadPoolExecutor
 import common as C
 
 ID = "C20"
-COQ_TARGETS = ["Properties/C20.vo"]
+COQ_TARGETS = ["Properties/C20.vo", "GenFacts/CurrencySrcFacts.vo"]
 MODEL_TARGETS = ["Model/Currency.vo"]
 IMPORTS = "From Ka Require Import Model.Currency.\nFrom Coq Require Import Ascii.\nOpen Scope string_scope.\n"
 PY = "/venv/bin/python"
